@@ -8,6 +8,31 @@ COMMON_ASSUME = [
 ]
 
 PROPS = {
+    "C04": {
+        "units": [{"pkg": "./c04", "shards": 8, "shards_thorough": 16, "timeout": 600}],
+        "rule": ("rapid-generated routes with 1-40 targets, each fixed weight in {0, k/10000, tiny, >1 up to 10, negative} or dynamic, built by 'route add ... weight' lines and "
+                 "0-6 'route weight' commands over services and tag sets. Oracle: float64 reference arithmetic from the statement (tolerance 1e-9 on Target.Weight, sum 1); "
+                 "two full round-robin cycles through Table.Lookup from a generated offset: periodic, share within (2+N)/(10000-N) of the weight, positive weight never starved, "
+                 "zero weight never picked, equal-weight routes exactly uniform; rnd picker driven through every ring index gives the same multiset. "
+                 "Non-trivial = >=3 targets mixing fixed and dynamic weights, or a 'route weight' matching >=2 targets; distinct by sorted fixed-weight vector."),
+        "technique": "rapid property test against reference weight arithmetic; full-cycle round-robin counting",
+        "level_text": "Effective weights of generated target sets are compared with reference arithmetic and the round-robin/rnd pickers are driven through complete cycles and counted. Exploration only.",
+        "level_note": "Ring length is read through a verif hook (VerifRingLen) and independently bounded to 10000±N (or N for equal weights); weights are finite and <= 10 (non-finite/huge weights belong to C02).",
+        "assumptions": COMMON_ASSUME,
+    },
+    "C03": {
+        "units": [{"pkg": "./c03", "shards": 4, "shards_thorough": 16, "timeout": 600}],
+        "rule": ("rapid-generated (table, requests) pairs: 1-12 routes over a colliding universe of hosts (exact names sharing suffixes, *.x wildcards at several depths, "
+                 "host:80/:443/:8080, host-less, written in mixed case) and nested paths; requests = route hosts / wildcard instances / unrelated names in random letter case "
+                 "with optional :80/:443/:other port, TLS on/off, paths extended/truncated/case-flipped; all three matchers, glob matching on and off, both pickers, small glob caches; "
+                 "plus LookupHost for tcp/sni names. Oracle: brute-force reference ranking (exact > wildcard by literal suffix length > host-less; longest path within a host; "
+                 "ties between equally ranked hosts accepted); routed iff a candidate exists. Non-trivial = the request has candidates on >=2 different (host rank, path length) levels; "
+                 "distinct by hash of (table text, request)."),
+        "technique": "rapid property test, differential against a brute-force reference ranking model",
+        "level_text": "Every generated (table, request) is looked up with fabio's Table.Lookup/LookupHost and compared against an independent brute-force model of the specificity order in both directions (routed iff a candidate exists; the answer belongs to a top-ranked candidate). Exploration only.",
+        "level_note": "Glob path specificity is asserted only for literal and literal+'*' patterns; wildcard hosts are generated as '*' and '*.suffix[:port]'. Ties between equally specific host patterns (e.g. foo.com and foo.com:80) accept either.",
+        "assumptions": COMMON_ASSUME,
+    },
     "C20": {
         "units": [{"pkg": "./c20", "shards": 4, "shards_thorough": 16, "timeout": 600}],
         "fuzz": [],
